@@ -42,7 +42,13 @@ let () =
         | Some (s, d) ->
           let ml = int_of_z (num_live s) in
           if same_state s s1 && (op = "W" || d = did) && ml = live && slots s = slots s0
-          then Printf.printf "X %s OK %d\n" id ml
+          then begin
+            (* the hypotheses of the invariant theorems, evaluated on this real state *)
+            let inv0 = pair_inv s0 and inv1 = pair_inv s in
+            let guard = (if op = "W" then swap_edge_guard fuel s0 (z_of_int e) else collapse_edge2_guard fuel s0 (z_of_int e) false) in
+            let g = match guard with Some true -> 1 | Some false -> 0 | None -> -1 in
+            Printf.printf "X %s OK %d INV0 %d INV1 %d GUARD %d\n" id ml (if inv0 then 1 else 0) (if inv1 then 1 else 0) g
+          end
           else Printf.printf "X %s DIFF state=%b did=%b live=%d/%d\n" id (same_state s s1) (d = did) ml live
       end
     done
